@@ -171,6 +171,27 @@ package kubeeventsmanager
 //@     invariant 0 <= iter() && iter() <= len(ei.eventBuf) && ei.eventCbEnabled && ei.eventBuf == old(ei.eventBuf) && !old(ei.eventCbEnabled)
 //@     invariant nPut == old(nPut) + iter() && forall(k, old(nPut), nPut, putLog[k] == ei.eventBuf[k - old(nPut)])
 
+// C01: unlocking a monitor enables the callback of every informer it has - the static ones and,
+// through the callback handed to the registry of per-namespace informers, every informer of every
+// namespace seen so far - and makes informers created for later namespaces start enabled.
+//@ func (*monitor).EnableKubeEventCb
+//@   prop C01
+//@   requires m != nil && forall(j, 0, len(m.ResourceInformers), m.ResourceInformers[j] != nil)
+//@   modifies all(resourceInformer.eventBuf), all(resourceInformer.eventCbEnabled), nPut, lastPut, putLog, m.eventsEnabled
+//@   ensures [static-informers-enabled] forall(j, 0, len(m.ResourceInformers), m.ResourceInformers[j].eventCbEnabled)
+//@   ensures [later-namespaces-start-enabled] m.eventsEnabled
+//@   loop 1
+//@     invariant 0 <= iter() && iter() <= len(m.ResourceInformers)
+//@     invariant forall(j, 0, iter(), m.ResourceInformers[j].eventCbEnabled)
+//@ func (*monitor).EnableKubeEventCb$1
+//@   prop C01
+//@   requires forall(j, 0, len(value), value[j] != nil)
+//@   modifies all(resourceInformer.eventBuf), all(resourceInformer.eventCbEnabled), nPut, lastPut, putLog
+//@   ensures [namespace-informers-enabled] forall(j, 0, len(value), value[j].eventCbEnabled)
+//@   loop 1
+//@     invariant 0 <= iter() && iter() <= len(value)
+//@     invariant forall(j, 0, iter(), value[j].eventCbEnabled)
+
 // C01 / C02: the Synchronization view is a copy of the cache (each cached object once); the
 // buffer is dropped only while the callback is disabled, and - so that no change can fall between
 // the copy and the reset - while the cache is still locked.
